@@ -181,6 +181,7 @@ class Interp:
         self.allow = None            # UC: regex list of bodies that are executed, others havoc'd
         self.trace = []              # UC: (callee, args, result)
         self.call_hooks = []         # fn(it, callee, args)
+        self.adt_hooks = {}          # struct name -> fn(it, Agg) called when the struct is built by an aggregate rvalue (symbolic start states)
         self.stack = []
         self.cur_crate = None
         self.depth = 0; self.maxdepth = 0
@@ -896,7 +897,10 @@ class Interp:
         if k == 'closure':
             return Agg('closure', rv[1], None, [self.operand(f, frame) for f in rv[2]])
         if k == 'adt':
-            return self.make_adt(rv[1], rv[2], [self.operand(f, frame) for f in rv[3]], rv[4])
+            r = self.make_adt(rv[1], rv[2], [self.operand(f, frame) for f in rv[3]], rv[4])
+            if self.adt_hooks and isinstance(r, Agg) and r.name in self.adt_hooks:
+                r = self.adt_hooks[r.name](self, r) or r
+            return r
         raise Unsupported(rv[1] if k == 'unsupported' else 'rvalue ' + str(rv))
 
     # ---- calls
